@@ -386,6 +386,13 @@ func corrMain(args []string) {
 					sum.count("skipped-after-many-mismatches")
 					continue
 				}
+				if sh.dead {
+					nsh, err := sh.renew()
+					if err != nil {
+						fatal(err)
+					}
+					sh = nsh
+				}
 				e, ok := exp[strconv.Itoa(c.id)]
 				if !ok || !strings.HasPrefix(e, "snaps=") {
 					sum.mismatch(Mismatch{Property: "C11", Case: c.line(), Expected: "driver output", Observed: e})
@@ -409,8 +416,10 @@ func runCorr(sh *shard, c *corrCase, expSnaps []string, sum *sumT) {
 	token := fmt.Sprintf("k%d", c.id)
 	caseLine := c.line()
 	fail := func(prop, expd, obs, detail string) {
-		sum.mismatch(Mismatch{Property: prop, Case: caseLine, Expected: expd, Observed: obs, Detail: detail})
+		timeout := strings.Contains(obs, "within") || strings.Contains(expd, "snapshot") || strings.Contains(obs, "routers on node")
+		sh.caseFail(Mismatch{Property: prop, Case: caseLine, Expected: expd, Observed: obs, Detail: detail}, timeout)
 	}
+	defer sh.caseEnd(sum)
 	cfg, err := sh.config(c.cfg)
 	if err != nil {
 		fail("C11", "configuration", err.Error(), "")
